@@ -86,16 +86,21 @@ def parse_fmt(t, i):
     return t[i] == 's', int(t[i + 1]), int(t[i + 2])
 
 
-def observe(z):
+def observe(z, x=None, y=None):
+    """format, codes, overflow, underflow of the result; with the operands given also `ia(x) ia(y) ia(z)`:
+    the result must carry the inaccuracy flag iff an operand carried it or its own store was inexact."""
     if not isinstance(z, Fxp):
         return ['NOTFXP:' + type(z).__name__]
     cs = codes_of(z)
     st = z.status
-    return fmt_of(z).split() + [tok_list([str(c) for c in cs]) if cs is not None else 'nonint',
-                                tok_bool(st['overflow']), tok_bool(st['underflow'])]
+    out = fmt_of(z).split() + [tok_list([str(c) for c in cs]) if cs is not None else 'nonint',
+                               tok_bool(st['overflow']), tok_bool(st['underflow'])]
+    if x is not None and y is not None and max(z.n_word, x.n_word, y.n_word) <= 52:      # the flags are claimed for core-domain formats (C04)
+        out += [tok_bool(x.status['inaccuracy']), tok_bool(y.status['inaccuracy']), tok_bool(st['inaccuracy'])]
+    return out
 
 
-def exec_AR(t):
+def exec_AR(t, ia=False):
     op, pol, meth, route = t[0:4]
     sx, nx, fx = parse_fmt(t, 4)
     sy, ny, fy = parse_fmt(t, 7)
@@ -117,10 +122,10 @@ def exec_AR(t):
             raise ValueError(route)
     except Exception as e:
         return [exc_token(e)]
-    return observe(z)
+    return observe(z, x, y) if ia else observe(z)
 
 
-def exec_AO(t):
+def exec_AO(t, ia=False):
     op, kind, meth, route = t[0:4]
     sx, nx, fx = parse_fmt(t, 4)
     sy, ny, fy = parse_fmt(t, 7)
@@ -149,7 +154,7 @@ def exec_AO(t):
             return ['CONFIG:%s,%s' % (z.config.rounding, z.config.overflow)]
     except Exception as e:
         return [exc_token(e)]
-    return observe(z)
+    return observe(z, x, y) if ia else observe(z)
 
 
 def exec_UN(t):
